@@ -36,6 +36,7 @@ func c03MemberScalar(id MemberID) Scalar {
 // VerifC03Round: one complete signing round of pkg/tss for a committee, with the sharing polynomial, the
 // nonces, the message and all hash outputs symbolic.
 func VerifC03Round() {
+	vs.AssumeHashScalars()
 	ids := c03Committees[vs.Case()]
 	t := len(ids)
 
